@@ -83,7 +83,7 @@ func rulePipeClose(c *Ctx) {
 	R.Rule("R-pipe-clean-close", "E3+E4", "the BDAT pipe writer is closed cleanly only on the LAST edge, after a chunk copy that returned no error AND delivered the declared number of octets; every other close of the writer carries a known non-nil error", 4)
 	clean := c.Sites("pipe-close-clean")
 	for _, site := range clean {
-		c.obFactMatch("clean close only for LAST", site, `^strings\.EqualFold\(strings\.Fields\(param1\)\[1\],"LAST"\) == true$`, "pipe closed cleanly on a path where the LAST token was not seen: the backend sees end-of-message after a non-final chunk")
+		c.obFactMatch("clean close only for LAST", site, `^(strings\.EqualFold\(strings\.Fields\(param1\)\[1\],"LAST"\) == true|strings\.ToUpper\(strings\.Fields\(param1\)\[1\]\) == "LAST"|strings\.Fields\(param1\)\[1\] == "LAST")$`, "pipe closed cleanly on a path where the LAST token was not seen: the backend sees end-of-message after a non-final chunk")
 		c.obFactMatch("clean close only after successful copy", site, `^io\.Copy(N)?\(Conn\.bdatPipe,.*\)#1 == nil$`, "pipe closed cleanly although the chunk copy may have failed")
 		okN, _ := c.factMatch(site, `^io\.Copy\(Conn\.bdatPipe,.*\)#0 (==|>=) strconv\.ParseUint\(.*\)#0$`)
 		okCopyN, _ := c.factMatch(site, `^io\.CopyN\(Conn\.bdatPipe,.*\)#1 == nil$`)
@@ -105,6 +105,8 @@ func rulePipeClose(c *Ctx) {
 			c.obMustUnder("abort pipe", f, []string{"pipe-abort"}, aPipeOpen)
 		}
 	}
+	// the abandoning commands reach those two functions
+	ruleAbandonResets(c)
 	if f := c.A.Func("(*Server).handleConn"); f != nil {
 		R.Ob("(*Server).handleConn/Conn.Close on every exit", c.P.Pos(f.Pos()), s.Must(f)[lClose], "some return path of handleConn does not run Conn.Close: an open transfer is never aborted")
 		// the defer must be registered before anything that can return
